@@ -1,6 +1,272 @@
-(** placeholder, replaced below *)
-From Coq Require Import ZArith.
-From TI Require Import lib.FArith model.Sizing.
-Theorem C04_placeholder : or1 0 = 1%Z.
-Proof. exact eq_refl. Qed.
-Print Assumptions C04_placeholder.
+(** C04 — automatic sizing always fits the frame, fills it, and preserves aspect ratio.
+
+    Only statements, each closed by [exact <lemma>], and [Print Assumptions].
+
+    Every arithmetic theorem is [forall FA, StandardModel FA -> ...]: it holds for every
+    float arithmetic that behaves like IEEE-754 binary64 round-to-nearest in the sense of
+    lib/FArith.v ([StandardModel]); that Coq's primitive floats (lib/FPrim.v, the instance
+    the correspondence executes against CPython) are such an arithmetic is the IEEE
+    assumption of the trusted base.  [valid_size] is the model of
+    [BaseImage._valid_size] (model/Sizing.v); the vocabulary ([Dom], [claimed], [nearP],
+    [HX], [WX], [fits], [columns], [lines], ...) is model/SizingSpec.v.
+
+    Domain ([Dom0] / [Dom] / [claimed]): source dimensions, frame dimensions (in pixels)
+    and a given width/height (in pixels) in [1, 2^30); cell size in [1, 2^12]; a fixed cell
+    ratio in [2^-30, 2^30]; where the free dimension is not bounded by the frame
+    (ORIGINAL, FIT_TO_WIDTH, width=, height=) its exact value is at most 2^40 pixels.
+    [auto_mode w h = Some m] covers the Size member passed as width or as height, and
+    (None, None) = FIT.  Both style families ([fam]); any terminal size, absolute or
+    terminal-relative frame ([columns] / [lines] resolve it). *)
+From Coq Require Import ZArith QArith List Bool.
+From TI Require Import lib.FArith model.Sizing model.SizingSpec
+     proofs.SizingProofs proofs.SizingHistory proofs.SizingTheorems.
+Open Scope Z_scope.
+
+(** an automatically computed (or manual) size is a pair of positive integers, for every
+    argument shape of the API *)
+Theorem C04_size_positive :
+  forall (FA : FloatArith) (SM : StandardModel FA) (fam : family) (e : env FA)
+         (ow oh : Z) (frame : Z * Z) (w h : dim),
+    claimed SM fam e ow oh w h frame ->
+    let '(a, b) := valid_size fam e ow oh w h frame in 0 < a /\ 0 < b.
+Proof. exact @size_positive. Qed.
+Print Assumptions C04_size_positive.
+
+(** FIT and AUTO never exceed the frame on either axis *)
+Theorem C04_fit_within_frame :
+  forall (FA : FloatArith) (SM : StandardModel FA) (fam : family) (e : env FA)
+         (ow oh : Z) (frame : Z * Z) (w h : dim),
+    auto_mode w h = Some FIT -> Dom SM fam e ow oh frame ->
+    let '(a, b) := valid_size fam e ow oh w h frame in
+    a <= columns e frame /\ b <= lines e frame.
+Proof. exact @fit_within_frame. Qed.
+Print Assumptions C04_fit_within_frame.
+
+Theorem C04_auto_within_frame :
+  forall (FA : FloatArith) (SM : StandardModel FA) (fam : family) (e : env FA)
+         (ow oh : Z) (frame : Z * Z) (w h : dim),
+    auto_mode w h = Some AUTO -> Dom SM fam e ow oh frame ->
+    let '(a, b) := valid_size fam e ow oh w h frame in
+    a <= columns e frame /\ b <= lines e frame.
+Proof. exact @auto_within_frame. Qed.
+Print Assumptions C04_auto_within_frame.
+
+(** FIT touches the frame on at least one axis *)
+Theorem C04_fit_touches_frame :
+  forall (FA : FloatArith) (SM : StandardModel FA) (fam : family) (e : env FA)
+         (ow oh : Z) (frame : Z * Z) (w h : dim),
+    auto_mode w h = Some FIT -> Dom SM fam e ow oh frame ->
+    let '(a, b) := valid_size fam e ow oh w h frame in
+    a = columns e frame \/ b = lines e frame.
+Proof. exact @fit_touches_frame. Qed.
+Print Assumptions C04_fit_touches_frame.
+
+(** FIT_TO_WIDTH has exactly the frame width (for EVERY float arithmetic: no float is
+    involved in the width) *)
+Theorem C04_fit_to_width_exact :
+  forall (FA : FloatArith) (fam : family) (e : env FA) (ow oh : Z) (frame : Z * Z) (w h : dim),
+    auto_mode w h = Some FIT_TO_WIDTH -> cell_ok e ->
+    fst (valid_size fam e ow oh w h frame) = columns e frame.
+Proof. exact @fit_to_width_exact_m. Qed.
+Print Assumptions C04_fit_to_width_exact.
+
+(** AUTO equals ORIGINAL when ORIGINAL's own pixel size (source width, ROUNDED scaled
+    height) fits the frame's pixel area, and FIT otherwise *)
+Theorem C04_auto_original_iff_fits :
+  forall (FA : FloatArith) (fam : family) (e : env FA) (ow oh : Z) (frame : Z * Z) (w h : dim),
+    auto_mode w h = Some AUTO ->
+    valid_size fam e ow oh w h frame =
+    (if fits fam e ow oh frame
+     then valid_size fam e ow oh (DSize ORIGINAL) DNone frame
+     else valid_size fam e ow oh (DSize FIT) DNone frame).
+Proof. exact @auto_original_iff_fits_m. Qed.
+Print Assumptions C04_auto_original_iff_fits.
+
+(** ... where the rounded scaled height is the round-half-even of the correctly rounded
+    product [oh * pixel_ratio]; it is [oh] itself for graphics-based styles *)
+Theorem C04_scaled_height_value :
+  forall (FA : FloatArith) (SM : StandardModel FA) (fam : family) (e : env FA) (oh : Z),
+    dim30 oh -> cell_ok e -> ratio_ok SM e ->
+    original_hpx fam e oh = rhe (rnd SM (QZ oh * val SM (pr_of fam e))).
+Proof. exact @original_hpx_value. Qed.
+Print Assumptions C04_scaled_height_value.
+
+Theorem C04_scaled_height_graphics :
+  forall FA : FloatArith, StandardModel FA ->
+  forall (e : env FA) (oh : Z), dim30 oh -> original_hpx Graphics e oh = oh.
+Proof. exact @original_hpx_graphics. Qed.
+Print Assumptions C04_scaled_height_graphics.
+
+(** a given width or height is kept exactly (for every float arithmetic) *)
+Theorem C04_given_width_kept :
+  forall (FA : FloatArith) (fam : family) (e : env FA) (ow oh wi : Z) (frame : Z * Z),
+    0 < wi -> fst (valid_size fam e ow oh (DInt wi) DNone frame) = wi.
+Proof. exact @given_width_kept. Qed.
+Print Assumptions C04_given_width_kept.
+
+Theorem C04_given_height_kept :
+  forall (FA : FloatArith) (fam : family) (e : env FA) (ow oh hi : Z) (frame : Z * Z),
+    0 < hi -> snd (valid_size fam e ow oh DNone (DInt hi) frame) = hi.
+Proof. exact @given_height_kept. Qed.
+Print Assumptions C04_given_height_kept.
+
+(** aspect ratio: the dimension that was not fixed is within one cell of the exact
+    rational aspect-preserving value, and is 1 when that value is below 1 ([nearP]).
+    FIT: one axis is the frame's, the other is near the value that goes with it. *)
+Theorem C04_aspect_lt_one_cell_fit :
+  forall (FA : FloatArith) (SM : StandardModel FA) (fam : family) (e : env FA)
+         (ow oh : Z) (frame : Z * Z) (w h : dim),
+    auto_mode w h = Some FIT -> Dom SM fam e ow oh frame ->
+    let '(a, b) := valid_size fam e ow oh w h frame in
+    (a = columns e frame /\
+     nearP b (HX SM (pr_of fam e) ow oh (fwpx fam e frame) / QZ (chp fam e))) \/
+    (b = lines e frame /\
+     nearP a (WX SM (pr_of fam e) ow oh (fhpx fam e frame) / QZ (cwp fam e))).
+Proof. exact @aspect_fit. Qed.
+Print Assumptions C04_aspect_lt_one_cell_fit.
+
+(** ORIGINAL: both dimensions are near the source's own size in cells *)
+Theorem C04_aspect_lt_one_cell_original :
+  forall (FA : FloatArith) (SM : StandardModel FA) (fam : family) (e : env FA)
+         (ow oh : Z) (frame : Z * Z) (w h : dim),
+    auto_mode w h = Some ORIGINAL -> Dom0 SM e ow oh ->
+    (QZ oh * val SM (pr_of fam e) <= two 40)%Q ->
+    let '(a, b) := valid_size fam e ow oh w h frame in
+    nearP a (QZ ow / QZ (cwp fam e)) /\
+    nearP b (QZ oh * val SM (pr_of fam e) / QZ (chp fam e)).
+Proof. exact @aspect_original. Qed.
+Print Assumptions C04_aspect_lt_one_cell_original.
+
+(** AUTO: the clause of whichever of the two it resolves to (no extra bound needed) *)
+Theorem C04_aspect_lt_one_cell_auto :
+  forall (FA : FloatArith) (SM : StandardModel FA) (fam : family) (e : env FA)
+         (ow oh : Z) (frame : Z * Z) (w h : dim),
+    auto_mode w h = Some AUTO -> Dom SM fam e ow oh frame ->
+    let '(a, b) := valid_size fam e ow oh w h frame in
+    (fits fam e ow oh frame = true /\
+     nearP a (QZ ow / QZ (cwp fam e)) /\
+     nearP b (QZ oh * val SM (pr_of fam e) / QZ (chp fam e))) \/
+    (fits fam e ow oh frame = false /\
+     ((a = columns e frame /\
+       nearP b (HX SM (pr_of fam e) ow oh (fwpx fam e frame) / QZ (chp fam e))) \/
+      (b = lines e frame /\
+       nearP a (WX SM (pr_of fam e) ow oh (fhpx fam e frame) / QZ (cwp fam e))))).
+Proof. exact @aspect_auto. Qed.
+Print Assumptions C04_aspect_lt_one_cell_auto.
+
+Theorem C04_aspect_lt_one_cell_fit_to_width :
+  forall (FA : FloatArith) (SM : StandardModel FA) (fam : family) (e : env FA)
+         (ow oh : Z) (frame : Z * Z) (w h : dim),
+    auto_mode w h = Some FIT_TO_WIDTH -> Dom SM fam e ow oh frame ->
+    (HX SM (pr_of fam e) ow oh (fwpx fam e frame) <= two 40)%Q ->
+    let '(a, b) := valid_size fam e ow oh w h frame in
+    a = columns e frame /\
+    nearP b (HX SM (pr_of fam e) ow oh (fwpx fam e frame) / QZ (chp fam e)).
+Proof. exact @aspect_fit_to_width. Qed.
+Print Assumptions C04_aspect_lt_one_cell_fit_to_width.
+
+Theorem C04_aspect_lt_one_cell_given_width :
+  forall (FA : FloatArith) (SM : StandardModel FA) (fam : family) (e : env FA)
+         (ow oh : Z) (frame : Z * Z) (wi : Z),
+    Dom0 SM e ow oh -> dim30 (px_of_cols fam e wi) -> 0 < wi ->
+    (HX SM (pr_of fam e) ow oh (px_of_cols fam e wi) <= two 40)%Q ->
+    let '(a, b) := valid_size fam e ow oh (DInt wi) DNone frame in
+    a = wi /\ nearP b (HX SM (pr_of fam e) ow oh (px_of_cols fam e wi) / QZ (chp fam e)).
+Proof. exact @aspect_given_width. Qed.
+Print Assumptions C04_aspect_lt_one_cell_given_width.
+
+Theorem C04_aspect_lt_one_cell_given_height :
+  forall (FA : FloatArith) (SM : StandardModel FA) (fam : family) (e : env FA)
+         (ow oh : Z) (frame : Z * Z) (hi : Z),
+    Dom0 SM e ow oh -> dim30 (px_of_lines fam e hi) -> 0 < hi ->
+    (WX SM (pr_of fam e) ow oh (px_of_lines fam e hi) <= two 40)%Q ->
+    let '(a, b) := valid_size fam e ow oh DNone (DInt hi) frame in
+    b = hi /\ nearP a (WX SM (pr_of fam e) ow oh (px_of_lines fam e hi) / QZ (cwp fam e)).
+Proof. exact @aspect_given_height. Qed.
+Print Assumptions C04_aspect_lt_one_cell_given_height.
+
+(** ---- histories (every float arithmetic; every state, including every terminal and
+    cell-ratio setting) ---- *)
+
+(** manual (width, height) sizes are stored unchanged *)
+Theorem C04_manual_stored :
+  forall (FA : FloatArith) (fam : family) (ow oh : Z) (s : state FA) (w h : Z) (frame : Z * Z),
+    0 < w -> 0 < h ->
+    let r := step fam ow oh s (OSetSize (DInt w) (DInt h) frame) in
+    st_size (fst r) = Fixed w h /\ o_outcome (snd r) = ok /\ o_rendered (snd r) = (w, h).
+Proof. exact @manual_stored. Qed.
+Print Assumptions C04_manual_stored.
+
+(** an automatic set_size stores what _valid_size computes at that moment *)
+Theorem C04_auto_set_stored :
+  forall (FA : FloatArith) (fam : family) (ow oh : Z) (s : state FA) (w h : dim) (frame : Z * Z),
+    arg_error w = None -> arg_error h = None -> is_none w || is_none h = true ->
+    let r := step fam ow oh s (OSetSize w h frame) in
+    st_size (fst r) = (let '(a, b) := valid_size fam (st_env s) ow oh w h frame in Fixed a b) /\
+    o_outcome (snd r) = ok.
+Proof. exact @auto_set_stored. Qed.
+Print Assumptions C04_auto_set_stored.
+
+(** a fixed size is unchanged -- and is what [rendered_size] reports -- after any sequence
+    of renders, terminal resizes and set_cell_ratio calls *)
+Theorem C04_fixed_unchanged_by_history :
+  forall (FA : FloatArith) (fam : family) (ow oh : Z) (ops : list (op FA)) (s : state FA) (w h : Z),
+    st_size s = Fixed w h -> forallb keeps_size ops = true ->
+    st_size (run fam ow oh s ops) = Fixed w h /\
+    rendered_size fam ow oh (run fam ow oh s ops) = (w, h) /\
+    rendered_height fam ow oh (run fam ow oh s ops) = h /\
+    Forall (fun ob : obs => o_size ob = Fixed w h /\ o_rendered ob = (w, h) /\ o_rheight ob = h)
+           (trace fam ow oh s ops).
+Proof. exact @fixed_unchanged_by_history. Qed.
+Print Assumptions C04_fixed_unchanged_by_history.
+
+(** a dynamic size stays dynamic and [rendered_size] is [_valid_size] under the
+    environment in force after the history *)
+Theorem C04_dynamic_follows :
+  forall (FA : FloatArith) (fam : family) (ow oh : Z) (ops : list (op FA)) (s : state FA) (m : smode),
+    st_size s = Dyn m -> forallb keeps_size ops = true ->
+    st_size (run fam ow oh s ops) = Dyn m /\
+    rendered_size fam ow oh (run fam ow oh s ops) =
+      valid_size fam (env_run (st_env s) ops) ow oh (DSize m) DNone default_frame /\
+    rendered_height fam ow oh (run fam ow oh s ops) =
+      snd (valid_size fam (env_run (st_env s) ops) ow oh DNone (DSize m) default_frame).
+Proof. exact @dynamic_follows. Qed.
+Print Assumptions C04_dynamic_follows.
+
+(** a render (whether or not the renderer raises) leaves size and environment as they
+    were; the renderer sees a fixed size: the stored one, or the dynamic one evaluated now *)
+Theorem C04_render_restores_dynamic :
+  forall (FA : FloatArith) (fam : family) (ow oh : Z) (s : state FA) (raises : bool),
+    let r := step fam ow oh s (ORender raises) in
+    st_size (fst r) = st_size s /\ st_env (fst r) = st_env s /\
+    o_during (snd r) =
+      Some match st_size s with
+           | Fixed w h => Fixed w h
+           | Dyn m => let '(w, h) := valid_size fam (st_env s) ow oh (DSize m) DNone default_frame in
+                      Fixed w h
+           end.
+Proof. exact @render_restores. Qed.
+Print Assumptions C04_render_restores_dynamic.
+
+(** a rejected set_size / size assignment changes nothing *)
+Theorem C04_rejected_changes_nothing :
+  forall (FA : FloatArith) (fam : family) (ow oh : Z) (s : state FA) (o : op FA),
+    match o with OSetSize _ _ _ | OAssign _ => True | _ => False end ->
+    o_outcome (snd (step fam ow oh s o)) <> ok ->
+    st_size (fst (step fam ow oh s o)) = st_size s.
+Proof. exact @rejected_changes_nothing. Qed.
+Print Assumptions C04_rejected_changes_nothing.
+
+(** the assumption is satisfiable (exact rational arithmetic is a [StandardModel]) and
+    the domain is inhabited by an ordinary state *)
+Theorem C04_assumption_consistent : StandardModel ExactFA.
+Proof. exact exact_standard_model. Qed.
+Print Assumptions C04_assumption_consistent.
+
+Theorem C04_domain_inhabited :
+  Dom exact_standard_model Text ex_env 288 288 default_frame /\
+  valid_size Text ex_env 288 288 (DSize FIT) DNone default_frame = (56, 28) /\
+  valid_size Text ex_env 288 288 (DSize AUTO) DNone default_frame = (56, 28) /\
+  valid_size Text ex_env 288 288 (DSize ORIGINAL) DNone default_frame = (288, 144).
+Proof. exact dom_nonvacuous. Qed.
+Print Assumptions C04_domain_inhabited.
